@@ -289,6 +289,11 @@ def _src(case):
 class _Boom(Exception):
     pass
 
+class _Budget(Exception):
+    pass
+
+BUDGET = 40000      # predicate calls per case: a program whose search explodes is skipped, not timed out
+
 MAXANS = 40
 
 def _impl_prog(case):
@@ -310,6 +315,15 @@ def _impl_prog(case):
             for _ in E.unify(x, v):
                 yield False
     yp.register_function('pyp', pyp)
+    steps = [0]
+    orig_query = yp.query
+    def counted_query(name, args):
+        steps[0] += 1
+        if steps[0] > BUDGET:
+            raise _Budget()
+        return orig_query(name, args)
+    yp.query = counted_query
+    yp.eval_context['query'] = counted_query
     nv = case['nvars']
     T = terms.ImplTerms([yp], nv)
     for name, args in case['dyn']:
@@ -325,15 +339,16 @@ def _impl_prog(case):
     name, qargs = case['query']
     args = [T.build(a) for a in qargs]
     W = E._VERIF_VARIABLES
+    def vstate(v):
+        # binding state of a Variable as the public API shows it: bound or not, and the value it dereferences to
+        return (True, terms.show_term(T.read(v))) if v._is_bound else (False, None)
     def state_of_world():
-        return {id(v): (v._is_bound, id(v._value) if v._is_bound else None) for v in W}
+        return {id(v): vstate(v) for v in list(W)}
     def check_world(before):
         """number of Variables whose binding state differs from `before` (new ones must be unbound)"""
         bad = 0
         for v in list(W):
-            exp = before.get(id(v), (False, None))
-            cur = (v._is_bound, id(v._value) if v._is_bound else None)
-            if cur != exp:
+            if vstate(v) != before.get(id(v), (False, None)):
                 bad += 1
         return bad
     def answer():
@@ -556,6 +571,8 @@ def impl(case):
         return _impl_prog(case)
     except RecursionError:
         return ['cyc-or-deep']
+    except _Budget:
+        return ['budget']
 
 def compare(case, io, mo):
     if case['kind'] != 'gen':
